@@ -211,7 +211,7 @@ func (e *Exec) frameAllow(fr *Frame, envEntry *Env) map[string]*frameAllowed {
 // function entry and is not listed in 'modifies' has its entry value in the state given (a monotone ghost set has
 // only grown). Used as an automatic loop invariant: assumed at the loop head, proved at loop entry and at every back edge.
 func (e *Exec) frameQuantified(fr *Frame, name string, cur string) string {
-	if name == "$top" || strings.HasPrefix(name, "$visited$") || strings.HasPrefix(name, "$defer$") {
+	if name == "$top" || strings.HasPrefix(name, "$visited$") || strings.HasPrefix(name, "$defer$") || strings.HasPrefix(name, "$calls$") {
 		return "true"
 	}
 	srt := e.heapSorts[name]
@@ -295,7 +295,7 @@ func (e *Exec) frameObligations(fr *Frame, exit *State, exitGuard string, envEnt
 	allow := e.frameAllow(fr, envEntry)
 	top0 := e.top(e.entry)
 	for _, name := range sortedKeys(exit.H) {
-		if name == "$top" || strings.HasPrefix(name, "$visited$") || strings.HasPrefix(name, "$defer$") {
+		if name == "$top" || strings.HasPrefix(name, "$visited$") || strings.HasPrefix(name, "$defer$") || strings.HasPrefix(name, "$calls$") {
 			continue
 		}
 		srt := e.heapSorts[name]
